@@ -7,6 +7,12 @@ package standard
 
 //@ type Service
 //@   guarded_by executionConfigMu: executionConfig
+//@   guarded_by builderBidsCacheMu: builderBidsCache
+//@   guarded_by latestValidatorRegistrationsMu: latestValidatorRegistrations
+//@   guarded_by signedValidatorRegistrationsMu: signedValidatorRegistrations
+//@   guarded_by controlledValidatorsMu: controlledValidators (replaced)
+//@   // established by New (parseAndCheckParameters rejects nil for these; the cache map is made there)
+//@   valid self.chainTime != nil && self.accountsProvider != nil && self.validatingAccountsProvider != nil && self.builderBidProvider != nil && self.builderBidsCache != nil
 //@
 //@ spec func fetchedCfg() blockrelay.ExecutionConfigurator
 //@ spec func fetchedErr() error
@@ -22,7 +28,7 @@ package standard
 //@   modifies nothing
 //@
 //@ func (*Service).fetchExecutionConfig
-//@   requires s != nil && s.chainTime != nil && s.validatingAccountsProvider != nil && unheld(s.executionConfigMu)
+//@   requires s != nil && s.chainTime != nil && s.validatingAccountsProvider != nil && nolocks()
 //@   assumes call obtainExecutionConfig#1 (cfg, err): cfg == fetchedCfg() && err == fetchedErr()
 //@   assumes call ValidatingAccountsForEpoch#1 (accts, err): err == nil ==> forall k phase0.ValidatorIndex :: in(accts, k) ==> accts[k] != nil
 //@   ensures calls(obtainExecutionConfig) > 0 && fetchedErr() == nil && fetchedCfg() != nil ==> s.executionConfig == fetchedCfg()
@@ -30,10 +36,24 @@ package standard
 //@   modifies s.executionConfig
 //@
 //@ func (*Service).auctionBlock
+//@   // called by BuilderBid with builderBidMu (which only serialises auctions) held
 //@   requires s != nil && s.builderBidProvider != nil && s.builderBidsCache != nil && unheld(s.executionConfigMu) && unheld(s.builderBidsCacheMu)
 //@   assumes call BuilderBid#1 (res, err): err == nil ==> res != nil
 //@   ensures result1 != nil ==> result0 == nil
 //@
 //@ func (*Service).AuctionBlock
-//@   requires s != nil && s.accountsProvider != nil && s.builderBidProvider != nil && s.builderBidsCache != nil && unheld(s.executionConfigMu) && unheld(s.builderBidsCacheMu)
+//@   requires s != nil && s.accountsProvider != nil && s.builderBidProvider != nil && s.builderBidsCache != nil && nolocks()
 //@   assumes call BuilderBid#1 (res, err): err == nil ==> res != nil
+//@
+//@ func (*Service).generateValidatorRegistrationsForAccount
+//@   // the accounts come from the accounts provider, which hands out no nil accounts
+//@   requires !isnil(account)
+//@
+//@ func (*Service).submitValidatorRegistrationsForAccounts
+//@   requires forall k phase0.ValidatorIndex :: in(accounts, k) ==> !isnil(accounts[k])
+//@
+//@ func (*Service).SubmitValidatorRegistrations
+//@   requires forall k phase0.ValidatorIndex :: in(accounts, k) ==> !isnil(accounts[k])
+//@
+//@ func (*Service).submitValidatorRegistrations
+//@   assumes call ValidatingAccountsForEpoch#1 (accts, err): err == nil ==> forall k phase0.ValidatorIndex :: in(accts, k) ==> !isnil(accts[k])
